@@ -138,3 +138,56 @@ Fixpoint has_triple (l:str) : bool :=
   end.
 Definition ends_with_quote (l:str) : bool := match rev l with c :: _ => (c =? c_dq)%N | [] => false end.
 Definition doc_safe (body:str) : bool := negb (memN c_bs body) && negb (has_triple body) && negb (ends_with_quote body).
+
+(* ---------------------------------------------------------------- the file name (ScriptDirectory._rev_path)
+   slug = "_".join(re.findall(r"\w+", message or "")).lower(), cut at truncate_slug_length; the name is
+   file_template % {rev, slug, date tokens} + ".py".  The template is given as its pieces (the %-format syntax is Python's);
+   date / epoch tokens arrive already formatted.  \w and str.lower are Unicode tables: oracles. *)
+Inductive tpiece := TLit (s:str) | TRevId | TSlug | TDate (s:str).
+
+Section FileName.
+  Variable is_word : N -> bool.          (* re: \w *)
+  Variable lower : N -> str.             (* str.lower of one character (the final-sigma context rule is outside) *)
+
+  (* re.findall(r"\w+", msg): maximal runs of word characters; cur is the run being read, reversed *)
+  Fixpoint words_from (cur:str) (l:str) : list str :=
+    match l with
+    | [] => match cur with [] => [] | _ => [rev cur] end
+    | c :: r => if is_word c then words_from (c :: cur) r
+                else match cur with [] => words_from [] r | _ => rev cur :: words_from [] r end
+    end.
+  Fixpoint join_us (ws:list str) : str :=
+    match ws with [] => [] | [w] => w | w :: r => w ++ 95%N :: join_us r end.
+  (* s.rsplit("_", 1)[0]: everything before the last underscore, the whole string when there is none *)
+  Fixpoint before_last_us (l:str) : str :=
+    match l with
+    | [] => []
+    | c :: r => if memN 95%N r then c :: before_last_us r
+                else if (c =? 95)%N then [] else c :: r
+    end.
+  Definition slug_of (msg:str) (trunc:nat) : str :=
+    let s := flat_map lower (join_us (words_from [] msg)) in
+    if (trunc <? length s)%nat then before_last_us (firstn trunc s) ++ [95%N] else s.
+
+  Definition piece_text (rev slug:str) (p:tpiece) : str :=
+    match p with TLit s | TDate s => s | TRevId => rev | TSlug => slug end.
+  Definition rev_filename (tpl:list tpiece) (rev msg:str) (trunc:nat) : str :=
+    flat_map (piece_text rev (slug_of msg trunc)) tpl ++ lit ".py".
+End FileName.
+
+Fixpoint has_prefix (p l:str) : bool :=
+  match p, l with
+  | [], _ => true
+  | a :: p', b :: l' => N.eqb a b && has_prefix p' l'
+  | _ :: _, [] => false
+  end.
+(* _only_source_rev_file = (?!\.\#|__init__)(.*\.py)$ : a name starting with .# or __init__ is never loaded,
+   . does not match a line feed, and the name must end with .py *)
+Definition loadable_name (fn:str) : bool :=
+  negb (has_prefix (lit ".#") fn) && negb (has_prefix (lit "__init__") fn) && negb (memN 10%N fn)
+  && has_prefix (rev (lit ".py")) (rev fn).
+
+(* the per-case oracles as finite tables *)
+Definition word_of (ws:list N) (c:N) : bool := memN c ws.
+Fixpoint lower_of (tbl:list (N * str)) (c:N) : str :=
+  match tbl with [] => [c] | (k, v) :: r => if N.eqb k c then v else lower_of r c end.
